@@ -21,3 +21,5 @@ def run(prog, rep):
     from ..rules import r_io as _rio
     _rio.run_growable(prog, rep)
     _rio.run_dcpl(prog, rep)
+    from ..rules import r_io as _rio3
+    _rio3.run_memtype(prog, rep)
